@@ -52,3 +52,8 @@ Definition same_but_label (a b : row) : bool :=
   (cum a =? cum b) && payload_eqb (pl a) (pl b).
 Definition persistb (old new : store) : bool :=
   forallb (fun a => existsb (same_but_label a) new) old.
+
+(* the same set of header ids is stored (used for the fault-and-continue exploration, where headers that
+   arrived while their parent's insertion had failed are legitimately stored as orphans) *)
+Definition same_ids (a b : store) : bool :=
+  forallb (fun r => memN (id r) (ids b)) a && forallb (fun r => memN (id r) (ids a)) b.
